@@ -20,7 +20,7 @@ func init() {
 	register(&Check{
 		ID:    "C18",
 		Level: "model_checking",
-		Rule: "the full cross product of the CLI's documented configuration space is executed on the binary built from /repo's tree: {-com,-src} x program {find with matches, find without, replace, compile error} x -files {one file, glob of several, nothing matching} x stdout {none,-json,-formatted-json,both} x -json-file {absent,present} x -formatted-json-file {absent,present} x -replace-mode {absent,NEW,NOTHING,OVERWRITE,BOGUS} x -no-output {no,yes} = 3840 invocations, plus the 2880 that name a JSON output file once more with stale, longer output files already present, each in a fresh scratch directory; " +
+		Rule: "the full cross product of the CLI's documented configuration space is executed on the binary built from /repo's tree: {-com,-src} x program {find with matches, find without, replace, compile error} x -files {one file, glob of several, nothing matching} x stdout {none,-json,-formatted-json,both} x -json-file {absent,present} x -formatted-json-file {absent,present} x -replace-mode {absent,NEW,NOTHING,OVERWRITE,BOGUS,CONFIRM (in the library's enumeration, not offered by the CLI)} x -no-output {no,yes}, plus the invocations that name a JSON output file once more with stale, longer output files already present (10080 invocations in all), each in a fresh scratch directory whose files hold quotes, backslashes, per-cent signs, ESC, 0x01, 0x7f and a non-UTF-8 byte where the program captures them; " +
 			"oracle: exit status; stdout under -json/-formatted-json is exactly one JSON document equal field by field to the library's result computed in-process on a twin directory; JSON files likewise; directory post-state equals the twin's (mode honoured, NEW default); invalid combinations / unknown mode / compile error: non-zero exit, a message, directory unchanged; states = distinct (configuration class, exit status, directory effect) outcomes, transitions = invocations",
 		Assume: []string{"with -no-output, and with zero matches, what the JSON files contain is not fixed by the documentation: only exit status and directory effects of the mode are checked there"},
 		Budget: map[string]int{"quick": 200, "thorough": 900},
@@ -68,7 +68,8 @@ type cliCfg struct {
 
 var cliProgs = []string{"find all 'a' (maybe not ' ') = x", "find all 'zzz'", "replace all 'a' with 'XY'", "find all (", "replace all 'b' with ''"}
 var cliGlobs = []string{"a.txt", "*.txt", "zzz*", "a*a.txt"}
-var cliModes = []string{"", "NEW", "NOTHING", "OVERWRITE", "BOGUS"}
+// CONFIRM is a member of the library's ReplaceMode enumeration that the CLI does not document or implement
+var cliModes = []string{"", "NEW", "NOTHING", "OVERWRITE", "BOGUS", "CONFIRM"}
 
 func (k cliCfg) args() []string {
 	var a []string
@@ -100,7 +101,7 @@ func (k cliCfg) args() []string {
 }
 
 func cliSetup(dir string, staleOutputs bool) {
-	os.WriteFile(filepath.Join(dir, "a.txt"), []byte("ab a%d\nxa\"b a\\ 100% a%s\n"), 0o644)
+	os.WriteFile(filepath.Join(dir, "a.txt"), []byte("ab a%d\nxa\"b a\\ 100% a%s\na\x1b[0m a\x01 a\xff a\x7f\n"), 0o644)
 	os.WriteFile(filepath.Join(dir, "b.txt"), []byte("bab"), 0o644)
 	os.WriteFile(filepath.Join(dir, "c.md"), []byte("aaa"), 0o644)
 	os.WriteFile(filepath.Join(dir, "aba.txt"), []byte("ab"), 0o644)
@@ -129,7 +130,7 @@ func runC18(c *Ctx) {
 				for so := 0; so < 4; so++ {
 					for _, jf := range []bool{false, true} {
 						for _, fj := range []bool{false, true} {
-							for mode := 0; mode < 5; mode++ {
+							for mode := 0; mode < len(cliModes); mode++ {
 								for _, no := range []bool{false, true} {
 									for _, st := range []bool{false, true} {
 										if st && !jf && !fj {
@@ -188,7 +189,7 @@ func c18Case(c *Ctx, k cliCfg) {
 	}
 	rec := map[string]any{"kind": "cli", "args": args, "exit": exit, "stdout": trunc(so.String(), 400), "stderr": trunc(se.String(), 400)}
 	desc := "vore " + strings.Join(args, " ")
-	invalid := k.stdout == 3 || k.mode == 4 || k.prog == 3
+	invalid := k.stdout == 3 || k.mode >= 4 || k.prog == 3
 	isReplaceProg := k.prog == 2 || k.prog == 4
 	_ = isReplaceProg
 	cls := fmt.Sprintf("prog%d files%d stdout%d jf%v fj%v mode%s no%v", k.prog, k.fileset, k.stdout, k.jsonFile, k.fjFile, cliModes[k.mode], k.noOutput)
@@ -320,7 +321,7 @@ func invalidKind(k cliCfg) string {
 	switch {
 	case k.prog == 3:
 		return "compile-error"
-	case k.mode == 4:
+	case k.mode >= 4:
 		return "unknown-mode"
 	}
 	return "json+formatted-json"
